@@ -111,6 +111,9 @@ type Sim struct {
 	AfterEvent func(ev *Event)
 	// BeforeEvent is called before the call is performed (after the fault decision).
 	BeforeEvent func(ev *Event)
+	// Decide, when set, is asked at every event whether to inject a fault there (history engines
+	// address faults by "the n-th mutating event of this operation" instead of a recorded address).
+	Decide func(ev *Event) *Fault
 	// KeepData makes write events keep a copy of their payload in WriteData (C07).
 	KeepData  bool
 	WriteData map[int][]byte
@@ -252,17 +255,33 @@ func (s *Sim) inside(abs string) bool {
 }
 
 var (
-	reHiddenTail = regexp.MustCompile(`^(\..*-)[0-9A-Za-z]+$`)
-	reTmpMiddle  = regexp.MustCompile(`^(\..*\.tmp-)[0-9A-Za-z]+(\..*)?$`)
+	reAlnum      = regexp.MustCompile(`^[0-9A-Za-z]+$`)
+	reAllDigits  = regexp.MustCompile(`^[0-9]+$`)
+	reDigitsTail = regexp.MustCompile(`^(.*-)[0-9]{6,}(\.[A-Za-z0-9]+)?$`)
 )
 
-// NormBase replaces the random part of a staging/temporary base name with '*'.
+// NormBase replaces the random parts of a staging/temporary base name with '*'. Hidden names may
+// carry several of them (a staging file of a staging file: ".a.p7c.stage-123.tmp-456").
 func NormBase(b string) string {
-	if m := reTmpMiddle.FindStringSubmatch(b); m != nil {
-		return m[1] + "*" + m[2]
+	if strings.HasPrefix(b, ".") {
+		segs := strings.Split(b, ".")
+		for i, sg := range segs {
+			j := strings.LastIndex(sg, "-")
+			if j < 0 || j == len(sg)-1 {
+				continue
+			}
+			tail := sg[j+1:]
+			if !reAlnum.MatchString(tail) {
+				continue
+			}
+			if len(tail) >= 8 || reAllDigits.MatchString(tail) {
+				segs[i] = sg[:j+1] + "*"
+			}
+		}
+		return strings.Join(segs, ".")
 	}
-	if m := reHiddenTail.FindStringSubmatch(b); m != nil {
-		return m[1] + "*"
+	if m := reDigitsTail.FindStringSubmatch(b); m != nil { // os.CreateTemp("", "pdfcpu-stdin-*.pdf")
+		return m[1] + "*" + m[2]
 	}
 	return b
 }
@@ -384,10 +403,23 @@ func (s *Sim) pre(ov *os.VerifEvent) (act os.VerifAction) {
 	// fault decision
 	var panicNow bool
 	var killNow bool
+	var matched []Fault
 	for _, f := range s.Faults {
-		if f.Addr.Op != op || f.Addr.Path != e.Path || f.Addr.Occ != e.Occ {
-			continue
+		if f.Addr.Op == op && f.Addr.Path == e.Path && f.Addr.Occ == e.Occ {
+			matched = append(matched, f)
 		}
+	}
+	if s.Decide != nil {
+		if f := s.Decide(&e); f != nil {
+			f.Addr = e.Addr()
+			f.Seq = e.Seq
+			matched = append(matched, *f)
+			if f.Kind == KPanicAfter || f.Kind == KKillAfter {
+				s.Faults = append(s.Faults, *f) // post() looks it up by address
+			}
+		}
+	}
+	for _, f := range matched {
 		switch f.Kind {
 		case KErr:
 			act.Err = syscall.Errno(f.Errno)
